@@ -191,19 +191,18 @@ Proof.
 Qed.
 Print Assumptions C22_attrgetter_paths.
 
-(* every async variant returns what the sync filter returns, for every value and every call
-   except sum with a str start ... *)
-Theorem C22_async_variant_agree_partial : forall aug c v,
-  agree_domain c = true -> res_map fst (run_async aug c v) = run_sync c v.
+(* every async variant returns what the sync filter returns: the same value whenever either
+   succeeds, and they fail together; for every filter but sum the results are equal as they are
+   (async sum runs every getter before the first addition, so when both a getter and an addition
+   fail the exception may be the other one) *)
+Theorem C22_async_variant_agree : forall aug c v, res_sim (res_map fst (run_async aug c v)) (run_sync c v).
 Proof. exact run_async_agrees. Qed.
-Print Assumptions C22_async_variant_agree_partial.
+Print Assumptions C22_async_variant_agree.
 
-(* ... where the full statement is false: the builtin sum() refuses a str start, the async
-   loop concatenates (recorded finding C22-sum-str-start) *)
-Theorem C22_async_variant_agree_refuted : exists aug c v, res_map fst (run_async aug c v) <> run_sync c v.
-Proof.
-  exists false, (CSum ANone (VStr [])), (VList [VStr [97%N]; VStr [98%N]]). vm_compute. discriminate.
-Qed.
+Theorem C22_async_variant_agree_exact : forall aug c v,
+  is_sum c = false -> res_map fst (run_async aug c v) = run_sync c v.
+Proof. exact run_async_agrees_exact. Qed.
+Print Assumptions C22_async_variant_agree_exact.
 
 (* the start argument of the async sum is left as it was — unless the accumulation is an
    augmented assignment on the alias of start AND start is a list (the flag is regenerated
